@@ -547,6 +547,10 @@ class FileIndex(Index):
                     and _same_deletions(reusable[segment].segment(), segment)):
                     r = reusable[segment]
                     del reusable[segment]
+                    if r.generation() is not None:
+                        # The re-used reader now serves this generation
+                        # (otherwise up_to_date() stays False for ever)
+                        r._gen = generation
                     return r
                 else:
                     return SegmentReader(storage, schema, segment,
